@@ -2,7 +2,7 @@
   C24 — executable model of the EncDec wavefront segments (core Lean only, no Mathlib).
 
   Transcribes, as the code IS at the pinned commit:
-    * `enc_dec_segments_ctor` / `enc_dec_segments_init`      Source/Lib/Encoder/Codec/EbEncDecSegments.c:36-163
+    * `enc_dec_segments_ctor` / `enc_dec_segments_init`      Source/Lib/Encoder/Codec/EbEncDecSegments.c:36-168
     * the macros BAND_TOTAL_COUNT / ROW_INDEX / BAND_INDEX / SEGMENT_INDEX   EbEncDecSegments.h:33-40
     * the segment SB loop of `mode_decision_kernel`           EbEncDecProcess.c:4405-4415, 4435-4442, 4683
     * `assign_enc_dec_segments`                               EbEncDecProcess.c:284-413
@@ -58,15 +58,15 @@ structure SegCtl where
   rows : Array SegRow
 deriving Repr, Inhabited
 
-/-- all SBs of a `W x H` grid in the raster order of the init loop (`y` outer, `x` inner; lines 94-95) -/
+/-- all SBs of a `W x H` grid in the raster order of the init loop (`y` outer, `x` inner; lines 99-100) -/
 def allSbs (W H : Nat) : List (Nat × Nat) :=
   (List.range H).flatMap fun y => (List.range W).map fun x => (x, y)
 
-/-- segment index of SB `(x, y)` as computed inside the init loop (lines 96-101) -/
+/-- segment index of SB `(x, y)` as computed inside the init loop (lines 101-106) -/
 def sbSeg (B T R H : Nat) (p : Nat × Nat) : Nat :=
   segmentIndex (rowIndex p.2 R H) (bandIndex p.1 p.2 B T) B
 
-/-- row controls (lines 117-138) -/
+/-- row controls (lines 122-143) -/
 def mkRow (W sbRow segRow B T : Nat) (r : Nat) : SegRow :=
   let y := u32 (u32 (r * sbRow) + sub32 segRow 1) / segRow
   let yLast := sub32 (u32 (u32 ((r + 1) * sbRow) + sub32 segRow 1) / segRow) 1
@@ -77,7 +77,7 @@ def mkRow (W sbRow segRow B T : Nat) (r : Nat) : SegRow :=
 def rowStart (rows : Array SegRow) (r : Nat) : Nat := (rows.getD r default).starting
 def rowEnd (rows : Array SegRow) (r : Nat) : Nat := (rows.getD r default).ending
 
-/-- body of the dependency loop (lines 147-158) for one `segment_index` of row `row` -/
+/-- body of the dependency loop (lines 152-163) for one `segment_index` of row `row` -/
 def depBody (valid : Array Nat) (rows : Array SegRow) (segRow B : Nat) (row : Nat) (d : Array Nat) (seg : Nat) :
     Array Nat :=
   if aget valid seg ≠ 0 then
@@ -100,23 +100,25 @@ def initSeg (W H C R MC MR : Nat) : SegCtl :=
   let c1 := if C < W then C else W
   let r1 := if R < H then R else H
   let r2 := if r1 < MR then r1 else MR
-  -- lines 80-85
+  -- line 83: a picture / tile group one SB wide gets a single segment row
+  let r3 := if W = 1 then 1 else r2
+  -- lines 85-90
   let sbBand := bandTotalCount H W
-  let segBand := bandTotalCount r2 c1
-  let ttl := u32 (r2 * segBand)
-  let seg := sbSeg segBand sbBand r2 H
+  let segBand := bandTotalCount r3 c1
+  let ttl := u32 (r3 * segBand)
+  let seg := sbSeg segBand sbBand r3 H
   let sbs := allSbs W H
-  -- lines 88-114
+  -- lines 93-119
   let valid := sbs.foldl (fun a p => amod a (seg p) (fun v => u16 (v + 1))) (Array.replicate ttl 0)
   let xs := sbs.foldl (fun a p => amod a (seg p) (fun v => if v == 65535 then u16 p.1 else v)) (Array.replicate ttl 65535)
   let ys := sbs.foldl (fun a p => amod a (seg p) (fun v => if v == 65535 then u16 p.2 else v)) (Array.replicate ttl 65535)
-  -- lines 117-138
-  let rows := ((List.range r2).map (mkRow W H r2 segBand sbBand)).toArray
-  -- lines 141-160
-  let dep := (List.range r2).foldl
-    (fun d r => (rowSegs rows r).foldl (depBody valid rows r2 segBand r) d) (Array.replicate ttl 0)
+  -- lines 122-143
+  let rows := ((List.range r3).map (mkRow W H r3 segBand sbBand)).toArray
+  -- lines 146-165
+  let dep := (List.range r3).foldl
+    (fun d r => (rowSegs rows r).foldl (depBody valid rows r3 segBand r) d) (Array.replicate ttl 0)
   { maxRowCount := MR, maxBandCount := maxBand, maxTotalCount := maxTotal,
-    segBandCount := segBand, segRowCount := r2, segTtlCount := ttl,
+    segBandCount := segBand, segRowCount := r3, segTtlCount := ttl,
     sbBandCount := sbBand, sbRowCount := H,
     validSb := valid, xStart := xs, yStart := ys, dep := dep, rows := rows }
 
@@ -266,7 +268,8 @@ def allB (n : Nat) (p : Nat → Bool) : Bool := (List.range n).all p
 
 /-- Everything the scheduling proof needs to know about a `SegCtl`, as a decidable check.
     `live = false` drops the one clause (every row after the first has its first segment fed by a
-    bottom edge from the row above) that is needed for completion only. -/
+    bottom edge from the row above) that is needed for completion only.  (`initSeg` satisfies both
+    for every accepted input: theorems `C24.init_wf`, `C24.init_live`.) -/
 def wfCheck (g : SegCtl) (live : Bool) : Bool :=
   let B := g.segBandCount
   let R := g.segRowCount
